@@ -25,8 +25,10 @@ def fn_sig(crate, fid):
     f = crate.fns.get(fid)
     if f is None or f.kind not in ("fn", "method"):
         return None
-    prefix = fid.rsplit("::", 1)[0] if "::" in fid else ""
-    return "sig:%s(%s)->%s" % (prefix, ",".join(f.local_ty(i) for i in range(1, f.argc + 1)), f.ret)
+    prefix, _, own = fid.rpartition("::") if "::" in fid else ("", "", fid)
+    # an `async fn` returns `{async fn body of <its own name>()}`: the own name must not be part of the signature
+    ret = re.sub(r"\b%s\b" % re.escape(own), "%", f.ret)
+    return "sig:%s(%s)->%s" % (prefix, ",".join(f.local_ty(i) for i in range(1, f.argc + 1)), ret)
 
 
 def _pieces(key):
